@@ -269,11 +269,11 @@ func (m *mux) write(id ConnID, buf []byte) (int, error) {
 		n, err = m.trunk.Write(data[:size])
 		vhook.Point("mux.wpay", m, uint32(id), size, err)
 		if err != nil {
+			// the header of this frame is already out: the stream is broken
+			// even if nothing of the payload got written
 			err = fmt.Errorf("failed to write payload to trunk: %w", err)
-			if n != 0 {
-				m.setError(err)
-				m.Close()
-			}
+			m.setError(err)
+			m.Close()
 			return 0, err
 		}
 
